@@ -35,7 +35,11 @@ RULE = (
     "calculate_B_dimension_wise / calculate_operation_dimension_wise. sasd: a real SpatiallyAdaptiveSingleDimensions2 "
     "run (d 1..2, thorough 3; lmin 1..2, lmax lmin+1..2, margin, rebalancing on/off, scripted error values, 5..60 (120) "
     "max_evaluations); every calculate_operation_dimension_wise call is observed and its surpluses compared with the "
-    "oracle for the stripes it was given. hats: hat_function, hat_function_in_support(_vectorized/"
+    "oracle for the stripes it was given; one third of the cases use reuse_old_values=True with level ranges that "
+    "give component grids of >= 200 points (2D lmin 3 lmax 5, 1D lmin 7 lmax 8, thorough also 2D lmin 4 lmax 5), "
+    "100..400 samples and 2..4 complete evaluations, so that from the second evaluation on the right-hand side is "
+    "partly copied from the old vector and partly recomputed through find_data_in_domain (classes reuse=True, "
+    "grid>=200, evaluation>=1-with-reuse-and-grid>=200, b-entries-recomputed-via-find_data_in_domain). hats: hat_function, hat_function_in_support(_vectorized/"
     "_completely_vectorized), hat_function_non_symmetric(_vectorized/_completely_vectorized) against the reference hat "
     "and pairwise, all hats of a level vector or of tree stripes, at points on grid lines, on support ends, on the domain "
     "boundary and inside cells. Non-trivial: uniform = d>=2, anisotropic level vector, >=1 sample coordinate exactly on "
@@ -59,8 +63,9 @@ ASSUMPTIONS = [
     "the lumped form is Gram diagonal + lambda",
     "the proportionality clause is skipped (and counted as class 'degenerate') when the reference solution is zero or "
     "constant up to rounding (then the library normalises rounding noise)",
-    "reuse_old_values is only used for the R cache (post_processing is never called, so no old b-vector exists); the "
-    "b-vector reuse path is property C17; the R cache is not combined with numeric entries (a cached inexact value of a "
+    "in the dimwise sub reuse_old_values is only used for the R cache (post_processing is never called there, so no old "
+    "b-vector exists); the b-vector reuse path is exercised by the sasd sub (real runs, every right-hand side compared "
+    "with the definition; the twin comparison reuse on/off is property C17); the R cache is not combined with numeric entries (a cached inexact value of a "
     "congruent pair would blur the cause predicate of F-C16-numeric)",
     "dimension-wise analytic matrix entries are compared with max(1e-12*max|G|, 1e-14/h_min^2) absolute because the "
     "library's antiderivatives lose digits like 0.4e-16/h_min^2 (reported as an observation, not as a violation); uniform "
@@ -325,7 +330,9 @@ def make_data(case):
         for j in range(nb):
             for k in range(d):
                 if snap[j, k] < 0.15:
-                    X[j, k] = round(X[j, k] * 2 ** res[k]) / 2.0 ** res[k]
+                    v = round(X[j, k] * 2 ** res[k]) / 2.0 ** res[k]
+                    if not (case.get("bulk_inner") and v in (0.0, 1.0)):
+                        X[j, k] = v
         data += X.tolist()
     classes = None
     if case.get("labels") is not None:
@@ -581,7 +588,7 @@ def check_dimwise_grid(out, sub, op, stripes, levels, boundary, lam, lump, numer
             val = dev / scale if numeric else dev * hmin ** 2
             info[key] = max(info.get(key, 0.0), val)
             R_dense = np.diag(R) if lump else R
-            spd = np.array_equal(R_dense, R_dense.T) and np.linalg.eigvalsh(R_dense)[0] > 0
+            spd = bool(np.all(R > 0)) if lump else (np.array_equal(R_dense, R_dense.T) and np.linalg.eigvalsh(R_dense)[0] > 0)
             if numeric and dev > 1e-9 * scale:
                 L = loose_quad_gram(stripes, boundary, diagonal_only=lump)
                 Lw = (np.diag(L) + lam) if lump else (L + lam * np.eye(N))
@@ -787,14 +794,41 @@ def run_sasd(case):
     info = {}
     a, b = np.zeros(d), np.ones(d)
     grid = GlobalTrapezoidalGrid(a=a, b=b, modified_basis=False, boundary=boundary)
+    reuse = bool(case.get("reuse", False))
+    steps = case.get("steps")            # stop after this many evaluations (reuse cases); None = max_evaluations decides
     op = DensityEstimation(data.copy(), d, grid=grid, masslumping=lump, lambd=lam,
-                           classes=None if classes is None else classes.copy(), reuse_old_values=False,
+                           classes=None if classes is None else classes.copy(), reuse_old_values=reuse,
                            print_level=Q, log_level=Q)
     sa = SpatiallyAdaptiveSingleDimensions2(a, b, operation=op, margin=case["margin"], rebalancing=case["rebalancing"],
                                             print_level=Q, log_level=Q)
     calls = []
     last = {}
+    state = dict(evaluation=0, key_found=0, find_data=0)
     orig, orig_R, orig_B = op.calculate_operation_dimension_wise, op.build_R_matrix_dimension_wise, op.calculate_B_dimension_wise
+    orig_key, orig_find, orig_post, orig_refine = op.find_closest_old_B, op.find_data_in_domain, op.post_processing, sa.refine
+
+    class _StopRun(Exception):
+        pass
+
+    def observe_key(*a, **k):
+        r = orig_key(*a, **k)
+        if r is not None:
+            state["key_found"] += 1
+        return r
+
+    def observe_find(*a, **k):
+        state["find_data"] += 1
+        return orig_find(*a, **k)
+
+    def observe_post(*a, **k):
+        r = orig_post(*a, **k)
+        state["evaluation"] += 1          # one complete evaluation of all component grids is finished
+        return r
+
+    def observe_refine(*a, **k):
+        if steps is not None and state["evaluation"] >= steps:
+            raise _StopRun()
+        return orig_refine(*a, **k)
 
     def observe_R(*a, **k):
         last["R"] = np.array(orig_R(*a, **k), dtype=float)
@@ -806,19 +840,28 @@ def run_sasd(case):
 
     def observer(stripes, levels, cg):
         last.clear()
+        k0, f0 = state["key_found"], state["find_data"]
         r = orig(stripes, levels, cg)
         lv = tuple(int(x) for x in cg.levelvector)
         calls.append(([[float(x) for x in s] for s in stripes], [[int(x) for x in l] for l in levels], lv,
-                      np.array(op.surpluses[lv], dtype=float).copy(), last.get("R"), last.get("B")))
+                      np.array(op.surpluses[lv], dtype=float).copy(), last.get("R"), last.get("B"),
+                      dict(evaluation=state["evaluation"], key_found=state["key_found"] - k0,
+                           find_data=state["find_data"] - f0)))
         return r
     # instance-level observers (the library calls these through self.<name>)
     op.calculate_operation_dimension_wise = observer
     op.build_R_matrix_dimension_wise = observe_R
     op.calculate_B_dimension_wise = observe_B
+    op.find_closest_old_B = observe_key
+    op.find_data_in_domain = observe_find
+    op.post_processing = observe_post
+    sa.refine = observe_refine
     try:
         with silent():
             sa.performSpatiallyAdaptiv(case["lmin"], case["lmax"], Scripted(case["errors"]), -1.0,
                                        max_evaluations=case["max_evaluations"], print_output=False)
+    except _StopRun:
+        pass
     except ZeroDivisionError as e:
         import traceback
         fr = traceback.extract_tb(e.__traceback__)[-1]
@@ -829,8 +872,16 @@ def run_sasd(case):
             raise
     nline = 0
     nonuniform = 0
-    for k, (stripes, levels, lv, al, Robs, Bobs) in enumerate(calls):
-        tag = "call %d levelvec=%s stripes=%s" % (k, lv, stripes)
+    big = reused_big = recomputed = 0
+    for k, (stripes, levels, lv, al, Robs, Bobs, st_) in enumerate(calls):
+        tag = "call %d evaluation %d levelvec=%s reuse=%s old-b-key=%d find_data_in_domain=%d stripes=%s" % (
+            k, st_["evaluation"], lv, reuse, st_["key_found"], st_["find_data"], stripes)
+        if al.size >= 200:
+            big += 1
+            if reuse and st_["evaluation"] >= 1:
+                reused_big += 1
+        if st_["key_found"] and st_["find_data"]:
+            recomputed += 1
         for s in stripes:
             if s[0] != 0.0 or s[-1] != 1.0 or any(s[i] >= s[i + 1] for i in range(len(s) - 1)):
                 raise AssertionError("harness: unexpected stripe %s" % s)
@@ -844,9 +895,19 @@ def run_sasd(case):
         nonuniform += 1 if nu else 0
     out.nontrivial = nline >= 1
     out.cls("d=%d" % d, "lump" if lump else "full", "lam=%g" % lam, "labels" if classes is not None else "no-labels",
-            "boundary" if boundary else "no-boundary", "rebalancing" if case["rebalancing"] else "no-rebalancing")
+            "boundary" if boundary else "no-boundary", "rebalancing" if case["rebalancing"] else "no-rebalancing",
+            "reuse=True" if reuse else "reuse=False")
     if nonuniform:
         out.cls("non-uniform-grid-solved")
+    if big:
+        out.cls("grid>=200")
+    if reused_big:
+        out.cls("evaluation>=1-with-reuse-and-grid>=200")
+    if recomputed:
+        out.cls("b-entries-recomputed-via-find_data_in_domain")     # old b found AND entries recomputed from the data bins
+    info["max_evaluations_done"] = state["evaluation"]
+    info["max_solves_reuse_grid>=200"] = reused_big
+    info["max_solves_with_recomputed_b"] = recomputed
     info["max_solves"] = len(calls)
     info["max_nonuniform_solves"] = nonuniform
     info["max_samples"] = len(data)
@@ -871,7 +932,40 @@ def sasd_strategy(tier):
         case["snap_res"] = [lmax + 1] * d
         case["labels"] = [draw(st.sampled_from([-1, 1])) for _ in case["data"]] if draw(st.booleans()) else None
         return case
-    return s()
+
+    @st.composite
+    def reuse_case(draw):
+        """reuse_old_values=True with component grids of >= 200 points and 2..4 complete evaluations: from the second
+        evaluation on calculate_B_dimension_wise copies the old b and recomputes the rest through find_data_in_domain.
+        Mass lumping keeps the run cheap (the cached dense R build costs ~10 s per grid); thorough also runs dense R."""
+        shape = draw(st.sampled_from(["2d", "2d", "2d", "1d"] if tier == "quick" else ["2d", "2d", "1d", "2d-fine"]))
+        d, lmin, lmax = {"2d": (2, 3, 5), "1d": (1, 7, 8), "2d-fine": (2, 4, 5)}[shape]
+        errors = [draw(st.sampled_from([0.0, 0.0, 0.0, 0.5, 1.0])) for _ in range(draw(st.integers(3, 12)))]
+        errors[draw(st.integers(0, len(errors) - 1))] = 1.0          # never "all equal" (= refine everything)
+        case = dict(d=d, lmin=lmin, lmax=lmax, boundary=False, reuse=True,
+                    steps=draw(st.sampled_from([2, 3, 3] if tier == "quick" else [2, 3, 4])),
+                    lam=draw(st.sampled_from(LAMBDAS)),
+                    lump=True if (tier == "quick" or shape == "2d-fine") else draw(st.sampled_from([True, True, True, False])),
+                    margin=draw(st.sampled_from([0.5, 0.9, 0.9])), rebalancing=draw(st.booleans()),
+                    max_evaluations=10 ** 9, errors=errors, rng=draw(st.integers(0, 2 ** 31 - 1)))
+        if not case["lump"]:
+            case["steps"] = 2
+        # 100..400 samples: seeded bulk strictly inside the domain (15% of the coordinates on grid lines) plus, in half of
+        # the cases, a few explicit samples on grid lines / on the domain boundary / duplicates
+        case["data"] = draw(data_strategy([lmax + 1] * d, 5)) if draw(st.booleans()) else []
+        case["bulk"] = draw(st.sampled_from([100, 150, 200, 300, 400]))
+        case["bulk_inner"] = True
+        case["snap_res"] = [lmax + 1] * d
+        case["labels"] = [draw(st.sampled_from([-1, 1])) for _ in case["data"]] if draw(st.booleans()) else None
+        return case
+    return st.one_of(s(), s(), reuse_case())
+
+
+def sasd_fixed():
+    """one deterministic reuse run (2D, lmin 3, lmax 5: component grids of 217/225 points, three evaluations)"""
+    return [dict(d=2, lmin=3, lmax=5, boundary=False, reuse=True, steps=3, lam=0.001, lump=True, margin=0.9,
+                 rebalancing=False, max_evaluations=10 ** 9, errors=[0.0, 0.0, 0.0, 0.5, 1.0, 0.0, 0.0, 0.0], rng=1,
+                 data=[], bulk=200, bulk_inner=True, snap_res=[6, 6], labels=None)]
 
 
 # ----------------------------------------------------------------------------------------------------------------
@@ -1199,11 +1293,11 @@ def dimwise_fixed():
 
 SUBS = [
     Sub("uniform", uniform_strategy, run_uniform, dict(quick=900, thorough=12000),
-        budget_s=dict(quick=22, thorough=200), fixed_cases=uniform_fixed),
+        budget_s=dict(quick=16, thorough=170), fixed_cases=uniform_fixed),
     Sub("dimwise", dimwise_strategy, run_dimwise, dict(quick=700, thorough=9000),
-        budget_s=dict(quick=20, thorough=200), fixed_cases=dimwise_fixed),
+        budget_s=dict(quick=16, thorough=170), fixed_cases=dimwise_fixed),
     Sub("sasd", sasd_strategy, run_sasd, dict(quick=250, thorough=3000),
-        budget_s=dict(quick=10, thorough=110)),
+        budget_s=dict(quick=20, thorough=170), fixed_cases=sasd_fixed),
     Sub("hats", hats_strategy, run_hats, dict(quick=800, thorough=10000),
         budget_s=dict(quick=8, thorough=80)),
 ]
